@@ -63,7 +63,7 @@ def cases(tier, base_seed):
         pre = None
         if rng.random() < 0.3:
             pre = {"warm": rng.random() < 0.7, "mod": rng.choice((2, 3, 4)), "rem": rng.randint(0, 1),
-                   "build": rng.random() < 0.4}
+                   "build": rng.random() < 0.4, "warm_after": rng.random() < 0.5}
         case = {"seed": seed, "frame": frame, "parts": parts(), "parts2": parts(), "pre": pre,
                 "npartitions": rng.choice((1, 2, 3, 4, 5, 8, 11, 16)),
                 "p": rng.choice((1, 2, 3, 5, 8, 10, 15, 20)),
@@ -117,6 +117,8 @@ def _pack(spec, parts, npartitions, p, tag, pre=None):
         ddf = ddf[ddf["v"] % pre["mod"] != pre["rem"]]
         if pre.get("build"):
             ddf = ddf.build_sindex()      # every partition carries a built spatial index
+        if pre.get("warm_after"):
+            ddf.partition_sindex          # the frame that is packed has its own bounds cached
     active = ddf.geometry.name      # "the active geometry" = what the input frame reports
     packed = ddf.pack_partitions(npartitions=npartitions, p=p)
     whole = packed.compute()
